@@ -59,7 +59,7 @@ PROBES = {
     'P3-include-full-depth': b'include("c1.conf")',
     'P4-error-with-diagnostics': b'i = 7\ns = {',
     'P5-error-inside-a-single-section': b'sec {\nx = bad }',
-    'P6-error-in-a-stream': b'\ni = 7\ns = {',          # parsed with cfg_parse_fp: its diagnostics name the stream, not an earlier source
+    'P6-error-in-a-stream': b'\nf = 2.5\ns = {',     # (its first conversion is a float: the first live probe, so nothing has cleared errno since the history)          # parsed with cfg_parse_fp: its diagnostics name the stream, not an earlier source
     'P7-float-first': b'f = 2.5 i = 3 l = {077}',          # conversions in an order that does not start with an integer
     # refused at the very first token, for every kind of token: the diagnostic quotes that token and nothing an earlier scan left behind
     'P8-first-token-append': b'+= 3', 'P9-first-token-equals': b'= 3', 'P10-first-token-brace': b'{ i = 1 }', 'P11-first-token-paren': b') (',
@@ -131,6 +131,13 @@ def live_probe_case(hist):
                                            'parse_fp %s %s' % (cur, enc(PROBES['P6-error-in-a-stream']))], fork=True, horizon=20)
 
 
+def live2_case(hist):
+    """a second, short sequence into the live context: a BUFFER whose first conversion is a float comes first (a stream probe goes
+    through libc calls that overwrite errno on their way)"""
+    lines, cur = history_lines(hist)
+    return Case(fixture_lines() + lines + ['note probe', 'parse_buf %s %s' % (cur, enc(b'f = 3.5 i = 4')), 'dump %s 0' % cur], fork=True, horizon=20)
+
+
 def after_note(res, note):
     """observation lines after the 'note' marker: the driver echoes nothing for notes, so cut by count"""
     return res.lines
@@ -177,10 +184,13 @@ def shard(sh):
         for pn in PROBES:
             cases.append((pn, fresh_probe_case(hist, pn)))
         cases.append(('live', live_probe_case(hist)))
+        cases.append(('live2', live2_case(hist)))
         red = reduce_history(hist)
         need_ref = red != tuple(hist) and red not in refs
         if need_ref:
             cases.append(('ref-live', live_probe_case(red)))
+        if red != tuple(hist):
+            cases.append(('ref-live2', live2_case(red)))
         results = drv.run([c for _, c in cases])
         obs = {}
         bad = False
@@ -192,7 +202,7 @@ def shard(sh):
                 st.violation('%s:%s' % (r.status, engine.sanitizer_summary(r.info)), script, 'history + probe run to completion', engine.excerpt(r.info))
                 bad = True
                 continue
-            o = observations(r, red if name == 'ref-live' else hist)
+            o = observations(r, red if name in ('ref-live', 'ref-live2') else hist)
             if o is None:
                 st.violation('protocol', script, '', r.text()[-400:])
                 bad = True
@@ -237,6 +247,8 @@ def shard(sh):
                 # the very first probe, a stream, right after the history: name and line as in a fresh process
                 st.violation('live-diagnostics-depend-on-history:first-probe after %s' % hist[-1], obs['live#script'],
                              '\n'.join(refs[('fresh', 'P6-error-in-a-stream')][1:-1]), '\n'.join(head))
+        if 'ref-live2' in obs and obs['live2'] != obs['ref-live2']:
+            st.violation('live-context-differs:float-first after %s' % hist[-1], obs['live2#script'], '\n'.join(obs['ref-live2']), '\n'.join(obs['live2']))
         st.outcome('\n'.join(obs['live']))
         key = '\n'.join(obs['key'])
         st.nontriv(key)
